@@ -68,6 +68,7 @@ def base_specs(tier):
         {"id": "e0x", "example": 0, "variants": ["external_measure", "extra_measure"]},
         {"id": "e7v", "example": 7, "variants": ["second_field", "extended_grid_mapping"]},
         {"id": "e0v", "example": 0, "variants": ["second_field", "char_aux", "interval_methods"]},
+        {"id": "e6v", "example": 6, "variants": ["second_field"]},
     ]
     return specs
 
@@ -104,6 +105,7 @@ def enumerate_faults(base, rng, tier):
     out = []
     raw = base["raw"]
     n = 0
+    vars_by_name = {v["name"]: v for v in raw["vars"]}
     for var in raw["vars"]:
         for attr, value in var["attrs"].items():
             if value is None:
@@ -118,16 +120,29 @@ def enumerate_faults(base, rng, tier):
                         elif kind == "foreign":
                             if attr in DIM_ATTRS:
                                 news = ["zz_fdim"]
+                            elif attr in ("bounds", "climatology"):
+                                # both ranks, and a variable of the rank and trailing dimensions of the
+                                # original bounds variable with a foreign leading dimension
+                                news = list(FOREIGN) + ["zz_fbnd"]
                             else:
                                 news = list(FOREIGN) if tier == "thorough" else [FOREIGN[(n + i) % 2]]
+                                if attr in ("coordinates", "ancillary_variables", "cell_measures") and var["dims"]:
+                                    # a netCDF string variable whose only foreign dimension is its last one
+                                    news.append("zz_str")
+                                if attr == "coordinates":
+                                    # a data variable of the file (unreferenced, foreign dimensions)
+                                    news.append("zz_data")
                         else:
                             news = [None]
                         for new in news:
                             nv = replace_token(value, i, new, role)
                             if kind == "removed" and role == "key":
                                 continue
+                            extra = extra_vars_for(new, var, name, vars_by_name)
+                            if extra is None:
+                                continue
                             out.append({
-                                "base": base["id"], "foreign": kind == "foreign",
+                                "base": base["id"], "foreign": kind == "foreign", "extra_vars": extra,
                                 "edits": [[var["name"], attr, nv if nv.strip() else None]],
                                 "meta": {"var": var["name"], "attr": attr, "kind": kind, "tok": i,
                                          "old": name, "new": new, "role": role, "value": nv, "orig": value}})
@@ -143,6 +158,24 @@ def enumerate_faults(base, rng, tier):
                         "meta": {"var": var["name"], "attr": attr, "kind": "semantic" if s in sem else "malformed",
                                  "tok": None, "old": None, "new": None, "role": None, "value": s, "orig": value}})
     return out
+
+
+def extra_vars_for(new, var, old_name, vars_by_name):
+    """Specification of the replacement variable `new` when it is not one of the two standard
+    foreign variables ([] = nothing to add, None = this replacement does not apply here)."""
+    if new == "zz_fbnd":
+        ob = vars_by_name.get(old_name)
+        if ob is None or len(ob["dims"]) < 2:
+            return None
+        return [{"name": "zz_fbnd", "dims": ["zz_fdim"] + list(ob["dims"][1:]), "dtype": "f8",
+                 "attrs": {"long_name": "foreign leading dimension"}}]
+    if new == "zz_str":
+        return [{"name": "zz_str", "dims": [var["dims"][0], "zz_fdim"], "dtype": "str",
+                 "attrs": {"long_name": "string variable, last dimension foreign"}}]
+    if new == "zz_data":
+        return [{"name": "zz_data", "dims": ["zz_fdim"], "dtype": "f8",
+                 "attrs": {"standard_name": "air_pressure", "units": "Pa"}}]
+    return []
 
 
 def attr_class(meta):
@@ -291,6 +324,16 @@ def oracle(case, base, row):
     rfields = {f["ncvar"]: f for f in rd["fields"] if not f.get("extra")}
     old, attr, v = meta["old"], meta["attr"], meta["var"]
     structural = attr in DIM_ATTRS or attr == "geometry"
+    # the complete list of returned fields: a variable added to the file with foreign dimensions is
+    # referenced by nothing that can be mapped, so it must come back as a field of its own -
+    # also when it is the replacement named by the broken token
+    if not structural and attr not in GEOM_ATTRS + ("nodes",):
+        added = (list(FOREIGN) if case.get("foreign") else []) + [sp["name"] for sp in case.get("extra_vars") or []]
+        got = {f["ncvar"] for f in rd["fields"]}
+        for a in added:
+            if a not in got:
+                fails.append((f"field-lost:{cls}", f"the unreferenced variable {a} (foreign dimensions) is no longer "
+                              f"returned as a field; returned: {sorted(map(str, got))}"))
     for n, bf in bfields.items():
         rf = rfields.get(n)
         if rf is None:
@@ -356,6 +399,11 @@ def oracle(case, base, row):
                                   f"cannot be read: {d[1]}"))
         if rf["data"] and str(rf["data"][1]).startswith("ERR"):
             fails.append((f"data-unreadable:{cls}", f"field {n}: field data cannot be read: {rf['data'][1]}"))
+        for c in [rf] + rf["constructs"]:
+            for d in (c["data"], c.get("bounds") and c["bounds"][1]):
+                if d and str(d[1]).startswith("ALIASED"):
+                    fails.append((f"data-aliased:{cls}", f"field {n}: the array returned for "
+                                  f"{c.get('type', 'field')}:{c['ncvar']} shares memory with the construct: {d[1]}"))
         # the report
         if field_concerned(bf, meta) and report_expected(meta, rf):
             if not report_mentions(rf["report"], meta):
@@ -410,6 +458,7 @@ def run_cases(chk, cases, bases, nworkers=12):
     shards = [cases[i::nworkers] for i in range(nworkers)]
     payloads = [{"mode": "faults", "scratch": chk.scratch,
                  "cases": [{"cid": c["cid"], "base": c["base"], "edits": c["edits"], "foreign": c["foreign"],
+                            "extra_vars": c.get("extra_vars") or [],
                             "base_fields": [f["ncvar"] for f in bases[c["base"]]["read"]["fields"]]} for c in sh]} for sh in shards if sh]
     res = lib.run_workers_parallel("drive/c13.py", payloads, timeout=1500)
     rows = {}
@@ -484,6 +533,9 @@ def apply_edits(raw, case):
                    "attrs": {"long_name": "foreign 1-d"}})
         vs.append({"name": "zz_foreign2", "dims": ["zz_fdim", "zz_fdim2"], "char": False, "string": False,
                    "attrs": {"long_name": "foreign 2-d"}})
+    for sp in case.get("extra_vars") or []:
+        vs.append({"name": sp["name"], "dims": list(sp["dims"]), "char": sp.get("dtype") == "S1",
+                   "string": sp.get("dtype") == "str", "attrs": dict(sp.get("attrs") or {})})
     return {"vars": vs, "gattrs": gattrs}
 
 
@@ -617,7 +669,9 @@ def double_faults(singles, rng, n):
         c1, c2 = rng.sample(by_base[b], 2)
         if c1["edits"][0][:2] == c2["edits"][0][:2]:
             continue
+        ex = {sp["name"]: sp for sp in (c1.get("extra_vars") or []) + (c2.get("extra_vars") or [])}
         out.append({"base": b, "foreign": c1["foreign"] or c2["foreign"], "edits": c1["edits"] + c2["edits"],
+                    "extra_vars": list(ex.values()),
                     "meta": {"var": c1["meta"]["var"], "attr": c1["meta"]["attr"] + "+" + c2["meta"]["attr"],
                              "kind": "double", "tok": None, "old": None, "new": None, "role": None,
                              "value": f"{c1['meta']['value']} / {c2['meta']['value']}", "orig": None}})
@@ -649,7 +703,7 @@ def weak_oracle(case, base, row):
     return fails
 
 
-QUICK_BASES = ("e0", "e1", "e1v", "e1g", "e2c", "e0x", "e7v", "e6", "e3c", "e4ic")
+QUICK_BASES = ("e0", "e1", "e1v", "e1g", "e2c", "e0x", "e7v", "e6", "e6v", "e3c", "e4ic")
 CORPUS = [
     # minimised earlier failures (ids as in the report): they run first
     {"base": "e1", "foreign": False, "edits": [["atmosphere_hybrid_height_coordinate", "bounds", "nope_missing"]],
@@ -719,7 +773,8 @@ def run(chk, model_ok):
             counts["failures"][sig] = counts["failures"].get(sig, 0) + 1
             chk.fail("property", sig, f"{c['base']}: {meta['var']}:{meta['attr']} = {meta['value']!r} "
                      f"({meta['kind']}): {what}"[:700],
-                     {"input": {"base": c["base"], "edits": c["edits"], "foreign": c["foreign"], "meta": meta},
+                     {"input": {"base": c["base"], "edits": c["edits"], "foreign": c["foreign"],
+                                "extra_vars": c.get("extra_vars") or [], "meta": meta},
                       "observed": {k: rd.get(k) for k in ("exc", "msg", "where", "open_fds")}})
 
     # ---- correspondence with the model
@@ -763,13 +818,14 @@ def run(chk, model_ok):
                      f"model and cfdm.read disagree on {c['base']} with {c['edits']}: exception {rd['exc']}, "
                      f"fields {[f['ncvar'] for f in (rd['fields'] or [])]}",
                      {"correspondence": "C13.Run.check_case",
-                      "input": {"base": c["base"], "edits": c["edits"], "foreign": c["foreign"], "meta": c["meta"]},
+                      "input": {"base": c["base"], "edits": c["edits"], "foreign": c["foreign"],
+                                "extra_vars": c.get("extra_vars") or [], "meta": c["meta"]},
                       "observed": {"exc": rd["exc"], "fields": [
                           {k: f.get(k) for k in ("ncvar", "report", "coordinate_references", "cell_methods")} |
                           {"constructs": [[x["type"], x["ncvar"], x["bounds"] and x["bounds"][0]] for x in f.get("constructs", [])]}
                           for f in (rd["fields"] or [])]}})
 
-    distinct = {lib.canon([c["base"], c["edits"], c["foreign"]]) for c in cases if c["meta"]["kind"] != "valid"}
+    distinct = {lib.canon([c["base"], c["edits"], c["foreign"], [sp["name"] for sp in c.get("extra_vars") or []]]) for c in cases if c["meta"]["kind"] != "valid"}
     chk.coverage.update({
         "evaluations": len(cases) + len(use),
         "distinct_nontrivial": len(distinct),
@@ -809,7 +865,8 @@ def replay(chk, path):
     for x in d.get("cases", []):
         i = x.get("input")
         if i and i.get("base") in bases:
-            cases.append({"base": i["base"], "edits": i["edits"], "foreign": i.get("foreign", False), "meta": i["meta"]})
+            cases.append({"base": i["base"], "edits": i["edits"], "foreign": i.get("foreign", False),
+                          "extra_vars": i.get("extra_vars") or [], "meta": i["meta"]})
     rows, crashed = run_cases(chk, cases, bases, nworkers=4)
     nbad = 0
     for c in cases:
